@@ -40,6 +40,7 @@ struct Opts {
     nofmt: bool,            // R5 off
     unwrap_default: bool,
     letanchors: Vec<String>, // local names after whose `let` an `after_let NAME K` anchor is emitted
+    fieldty: Vec<(String, String)>, // struct take: replace the type of a field (R4 for `dyn Fn` fields)
     anchors: Vec<String>,   // callee names after whose enclosing statement an `after_call NAME K` anchor is emitted
     r3calls: Vec<(String, usize)>, // callee -> number of generics R3 added to it (turbofish call sites get that many `_`)
 }
@@ -70,6 +71,7 @@ fn parse_opts(s: &str) -> Opts {
             "selfty" => o.selfty = Some(v.to_string()),
             "nofmt" => o.nofmt = true,
             "anchors" => o.anchors = list(),
+            "fieldty" => o.fieldty = list().iter().filter_map(|x| x.split_once(':').map(|(a, b)| (a.to_string(), b.to_string()))).collect(),
             "letanchors" => o.letanchors = list(),
             "r3calls" => o.r3calls = list().iter().filter_map(|x| x.split_once(':').map(|(a, b)| (a.to_string(), b.parse().unwrap_or(1)))).collect(),
             _ => { eprintln!("xt: unknown option {k}"); std::process::exit(3); }
@@ -376,6 +378,15 @@ impl VisitMut for Rw {
                 *e = parse_quote!(match #inner { Ok(__v) => __v, Err(__e) => return Err(QFrom::qfrom(__e)) });
             }
             Expr::Call(c) => {
+                // R14: call of a parenthesised field `(self.f)(a)` -> `self.f.call(a)`
+                if let Expr::Paren(pe) = &*c.func {
+                    if let Expr::Field(_) = &*pe.expr {
+                        let recv = &pe.expr; let args = &c.args;
+                        self.bump("R14");
+                        *e = parse_quote!(#recv.call(#args));
+                        return;
+                    }
+                }
                 // R3 at call sites: explicit turbofish gets one `_` per generic that R3 added to the callee
                 if let Expr::Path(p) = &mut *c.func {
                     if let Some(seg) = p.path.segments.last_mut() {
@@ -1132,6 +1143,15 @@ impl VisitMut for StripDerive {
 }
 
 fn emit_item(key: &str, file: &str, mut it: Item, _o: &Opts) {
+    if let Item::Struct(st) = &mut it {
+        for f in st.fields.iter_mut() {
+            if let Some(id) = &f.ident {
+                if let Some((_, t)) = _o.fieldty.iter().find(|(n, _)| id == n) {
+                    f.ty = syn::parse_str(t).expect("fieldty type");
+                }
+            }
+        }
+    }
     let mut sd = StripDerive { derives: vec![] };
     let (start, end) = {
         use syn::spanned::Spanned;
@@ -1218,7 +1238,7 @@ fn main() {
             syn::parse_file(&src).map_err(|e| format!("cannot parse {p}: {e}"))
         });
         let f = match parsed { Ok(f) => f, Err(e) => { println!("@@ERROR {key} {e}"); continue; } };
-        let sel: Vec<&str> = selector.split("::").map(|s| s.trim()).collect();
+        let sel: Vec<&str> = selector.split(" :: ").map(|s| s.trim()).collect();
         // special selectors
         let w0: Vec<&str> = sel[0].split_whitespace().collect();
         if w0[0] == "invocations" {
